@@ -124,6 +124,7 @@ static void child_run(void *a_)
     unsigned char rec[40000];
     k->c.on_app = on_app; k->s.on_app = on_app;
     vf_stat("cases", 1);
+    if (vf_verbose) fprintf(stderr, "  child: now=%ld srv gotlen=%zu nApp=%d early status=%d enabled=%d sent0=%d sent1=%d cli gotlen=%zu\n", mx_now, k->s.gotlen, k->s.nApp, k->s.ssl->tls13EarlyDataStatus, k->s.ssl->tls13ServerEarlyDataEnabled, M.sentlen[0], M.sentlen[1], k->c.gotlen);
     if (a->inj->kind == INJ_ENCODE) {
         if (!matrixSslHandshakeIsComplete(tgt->ssl)) {
             unsigned char p[64]; mx_payload(p, 40, 0x0c01, tgt->role, 99);
@@ -185,6 +186,7 @@ static long g_case_idx;
 static void at_cut(mx_walk *w, mx_conn *k, int cut)
 {
     foreign = w->foreign; foreignlen = w->foreignlen;
+    if (vf_verbose > 1 || getenv("C01_TRACE")) fprintf(stderr, "  parent %s target=%d cut=%d now=%ld srv: gotlen=%zu early status=%d enabled=%d\n", w->scn->name, w->target, cut, mx_now, k->s.gotlen, k->s.ssl ? k->s.ssl->tls13EarlyDataStatus : -1, k->s.ssl ? k->s.ssl->tls13ServerEarlyDataEnabled : -1);
     for (int j = 0; j < ncat; j++) {
         long idx = g_case_idx++;
         if (!vf_mine(idx)) continue;
